@@ -553,3 +553,50 @@ def replay_case(ctx, payload):
     for f in sub.oracle_failures:
         print('still failing:', f['clause'], f['detail'])
     return not sub.oracle_failures
+
+
+# ---- extras (round-3 lessons): extreme magnitudes ---------------------------------------------------------------------------------------
+
+def extras(ctx):
+    """the spectrum is homogeneous (fas(2^k a) == 2^k fas(a) bit for bit) and the dominant period does not depend on the scale of the
+    record, also for records around 1e-180 / 1e+180 (squared magnitudes under/overflow there; |.| does not)"""
+    import eqsig
+    from eqsig import im
+    from eqsig.fns import frequency as fq
+    rng = ctx.rng
+    for it in range(8 if ctx.tier == 'quick' else 80):
+        n = rng.randint(4, 300)
+        dt = rng.choice([0.01, 0.02, 0.005, 0.1])
+        kind, a = gen.any_record(rng, n, dt)
+        if not np.any(a):
+            continue
+        base_f = call_impl(lambda: fq.calc_fa_spectrum(eqsig.AccSignal(a, dt))[0])
+        base_p = call_impl(im.max_fa_period, eqsig.AccSignal(a, dt))
+        if base_f[0] != 'ok' or base_p[0] != 'ok':
+            continue
+        # the dominant bin must be unique by a margin, otherwise rounding may legitimately pick another one after rescaling
+        mag = np.abs(np.asarray(base_f[1]))
+        srt = np.sort(mag)
+        unique_peak = len(srt) < 2 or srt[-1] > srt[-2] * (1 + 1e-9)
+        for k in gen.EXTREME_POW2:
+            sc = 2.0 ** k
+            ctx.hist(f'extreme-scale/2^{k}')
+            ctx.count_case(('extreme', a.tobytes(), dt, k), True)
+            inputs = {'values': a, 'dt': dt, 'scale': f'2**{k}'}
+            f2 = call_impl(lambda: fq.calc_fa_spectrum(ctx.aged(eqsig.AccSignal, a * sc, dt))[0])
+            ok = f2[0] == 'ok' and gen.scaled_exactly(np.asarray(f2[1]).real, np.asarray(base_f[1]).real, sc) and \
+                gen.scaled_exactly(np.asarray(f2[1]).imag, np.asarray(base_f[1]).imag, sc)
+            ctx.oracle('C06 the spectrum is homogeneous: fas(2^k a) == 2^k fas(a) exactly, also at extreme scales', ok, inputs)
+            if unique_peak:
+                p2 = call_impl(im.max_fa_period, ctx.aged(eqsig.AccSignal, a * sc, dt))
+                ctx.oracle('C06 the dominant period (largest-amplitude bin) does not depend on the scale of the record, also at extreme scales',
+                           p2[0] == 'ok' and (p2[1] == base_p[1] or (np.isinf(p2[1]) and np.isinf(base_p[1]))), inputs, detail={'base': base_p[1], 'scaled': p2[1] if p2[0] == 'ok' else p2})
+
+
+_run_main = run
+
+
+def run(ctx):
+    _run_main(ctx)
+    extras(ctx)
+    ctx.flush()
